@@ -356,6 +356,13 @@ func genCase(t *rapid.T, f *gen.Func, shape string) ([]reflect.Value, refmodel.U
 		init = append(append([]reflect.Value{}, init[r:]...), init[:r]...)
 	}
 	u := listgen.Update(t, f, init, shape, o, "w")
+	if u.Delete && u.Partial && u.PartialSelector.IsValid() && rapid.IntRange(0, 3).Draw(t, "partialPartWithoutItem") == 0 {
+		// a sender's slip in the combined shape: the partial part names an element by selector but the command
+		// carries no item to take new values from. Whether the stack refuses the write or applies its delete
+		// part, the answer has to fit what happened (P3 / P4)
+		u.Items = nil
+		world.Label("write/partial-selector-without-item")
+	}
 	// the written items may or may not carry a (different) flag value
 	for i, it := range u.Items {
 		setFlag(f, it, rapid.SampledFrom([]string{flagAbsent, flagAbsent, flagTrue, flagFalse}).Draw(t, fmt.Sprintf("wflag%d", i)))
